@@ -71,13 +71,14 @@ def placement_k(rep, pid, binp, seed, n, kind):
     return bad
 
 
-def block_k(rep, pid, binp, seed, trees):
+def block_k(rep, pid, binp, seed, trees, p_absolute=300, p_hidden=250):
     """K3: block containers that have display:none / position:absolute children interleaved with in-flow ones (`vh c10 kcases3`:
-    C10's K2 protocol on trees with 30 % absolute and 25 % hidden nodes): the container's own LayoutOutput (size, collapse-through,
+    C10's K2 protocol on trees with p_absolute / p_hidden per mille absolute / hidden nodes; C06 runs it with absolute children only, C05 with
+    hidden children only -- so that a defect of one property does not break the other's K -- and C10 with both): the container's own LayoutOutput (size, collapse-through,
     margin sets) and every in-flow child's stored layout + the known dimensions / available width passed to it, with the recorded
     child outputs as oracle values, vs Model.BlockRun.run_case2 -- i.e. vs generate_item_list + block_inflow + compute_inner's
     decisions, the definitions C06_block_inflow_abs_blind / C05_block_items_ignore_hidden are about."""
-    rc, out = vh(binp, ['c10', 'kcases3', seed, trees], timeout=300)
+    rc, out = vh(binp, ['c10', 'kcases3', seed, trees, p_absolute, p_hidden], timeout=300)
     tags = [l.split()[1:] for l in out.split('\n') if l.startswith('T ')]
     cases, impl = parse_cr(out)
     if rc != 0 or not cases or len(tags) != len(cases):
